@@ -209,3 +209,24 @@ def guards(prog, path, bid, direct=False):
             taken = ("multi", tuple(hits))
         out.append((e, taken, t))
     return out
+
+
+def module_region(prog, p, stop=None):
+    """p, its closures and the non-public functions of p's own module that it calls (transitively, direct calls):
+    the bodies a rule about p has to look at so that extracting a private helper does not hide anything"""
+    import re as _re
+    from .mirlib import Program as _P
+    modp = p.rsplit("::", 1)[0]
+    bodies, work = set(), [p]
+    while work:
+        q = work.pop()
+        if q in bodies or q not in prog.bodies:
+            continue
+        bodies.add(q)
+        work.extend(prog.closures_of(q))
+        for _, t in prog.calls(q):
+            n = _P.callee_name(t)
+            if n.startswith(modp + "::") and n in prog.bodies and str(prog.bodies[n].get("vis")) != "Public" and not (stop and _re.search(stop, n)):
+                work.append(n)
+    return sorted(bodies)
+
